@@ -162,6 +162,10 @@ class Ref:
             return OO
         except (ImpedanceError, NotImplementedError):
             return None  # undefined
+        except Exception:
+            # a leaf that raises anything else is not the reference's business: the circuit-level call is judged ('crash')
+            self.stats["ref_leaf_unexpected_exception"] = self.stats.get("ref_leaf_unexpected_exception", 0) + 1
+            return None
 
     def leaf_vector(self, elem, freqs):
         """leaf values for the whole vector: one array call, falling back to single-frequency calls when it refuses"""
